@@ -2,9 +2,11 @@ package main
 
 import (
 	"fmt"
+	"io"
 	"math/rand"
 	"net"
 	"strconv"
+	"time"
 
 	xmpp "gosrc.io/xmpp"
 )
@@ -64,6 +66,36 @@ func (c20) Exec(c Case) []string {
 			} else {
 				obs = append(obs, hx(out)+" "+hx(h)+" "+hx(p))
 			}
+		case "dial":
+			// the transport keeps dialling the CONFIGURED address: connect to a listener reached under a name, then look
+			// at the address the transport holds (a reconnection must resolve the name again)
+			ln, err := net.Listen("tcp", "127.0.0.1:0")
+			if err != nil {
+				obs = append(obs, "listen-failed")
+				continue
+			}
+			_, port, _ := net.SplitHostPort(ln.Addr().String())
+			addr := unhx(op[1]) + ":" + port
+			go func() {
+				c, err := ln.Accept()
+				if err == nil {
+					io.WriteString(c, "<?xml version='1.0'?><stream:stream xmlns='jabber:client' xmlns:stream='http://etherx.jabber.org/streams' version='1.0' id='s1'>")
+					time.Sleep(50 * time.Millisecond)
+					c.Close()
+				}
+			}()
+			xt := xmpp.NewClientTransport(xmpp.TransportConfiguration{Address: addr, Domain: "localhost", ConnectTimeout: 2}).(*xmpp.XMPPTransport)
+			_, cerr := xt.Connect()
+			ln.Close()
+			xt.Config.ConnectTimeout = 0
+			xt.Close()
+			if cerr != nil {
+				obs = append(obs, "connect-failed")
+			} else if xt.Config.Address == addr {
+				obs = append(obs, "kept")
+			} else {
+				obs = append(obs, "changed:"+hx(xt.Config.Address))
+			}
 		case "split":
 			h, p, err := net.SplitHostPort(unhx(op[1]))
 			if err != nil {
@@ -108,7 +140,7 @@ func (c20) Generate(rng *rand.Rand, tier string, st *Stats) []Case {
 	}
 	plain := []string{"example.org", "localhost", "a", "xn--bcher-kva.example", "host-1.example.com.", "1.2.3.4", "255.255.255.255",
 		"0", "123", "a_b", "UPPER.Example", "", "ws", "wss", "w s", "日本.example"}
-	v6 := []string{"::", "::1", "1::", "fe80::1", "2001:db8::8a2e:370:7334", "2001:0db8:0000:0000:0000:ff00:0042:8329",
+	v6 := []string{"fe80::a00:27ff:fe4e:66a1%eth0", "2001:db8::8:800:200c:417a%3", "::", "::1", "1::", "fe80::1", "2001:db8::8a2e:370:7334", "2001:0db8:0000:0000:0000:ff00:0042:8329",
 		"::ffff:1.2.3.4", "fe80::1%eth0", "fe80::1%25eth0", "1:2:3:4:5:6:7:8", "a::b:c", "::1.2.3.4"}
 	var ports []string
 	if tier == "thorough" {
@@ -124,6 +156,8 @@ func (c20) Generate(rng *rand.Rand, tier string, st *Stats) []Case {
 		}
 	}
 	ports = append(ports, "05222", "000", "99999999")
+	add("dial", hx("localhost"))
+	add("dial", hx("127.0.0.1"))
 	// net.SplitHostPort itself (the model of it is what C20_dialable is stated over): every short string over the
 	// structural alphabet, plus random longer ones
 	alphaS := []byte("[]:a%1")
